@@ -10,6 +10,7 @@ import Ahbicht.Model.Val
 import Ahbicht.Model.Time
 import Ahbicht.Model.Json
 import Ahbicht.Model.Heap
+import Ahbicht.Model.Async
 /-!
 # line-protocol driver: one JSON request per line on stdin, one JSON answer per line on stdout
 -/
@@ -375,6 +376,55 @@ def handle (j : Json) : Except String Json := do
       else pure (HOp.edit (← (a[1]? |>.getD Json.null).getNat?) (← natList (a[2]? |>.getD Json.null)) (← editOf (a[3]? |>.getD Json.null)))
     let outs := runOps pp mode cap State.init ops
     pure (Json.mkObj [("returned", Json.arr (outs.map fun o => match o with | some t => jsonOfLTree t | none => Json.null).toArray)])
+  | "gatherIfNecessary" =>
+    let a ← (← j.getObjVal? "items").getArr?
+    let items ← a.toList.mapM fun x => do
+      let p ← x.getArr?
+      let tag ← (p[0]? |>.getD Json.null).getStr?
+      let v := p[1]? |>.getD Json.null
+      pure (if tag == "a" then MaybeAwaitable.awaitable v else MaybeAwaitable.result v)
+    pure (Json.mkObj [("result", Json.arr (gatherIfNecessary items).toArray)])
+  | "trace" =>
+    -- recorded program of a validation run: tasks [[ops...], ...] with ops ["set", v] | ["spawn", c] | ["get"], parent [[p, j] | null, ...], inputOf [v | null, ...]
+    let tasks ← (← j.getObjVal? "tasks").getArr?
+    let progs ← tasks.toList.mapM fun t => do
+      let ops ← t.getArr?
+      ops.toList.mapM fun o => do
+        let a ← o.getArr?
+        let tag ← (a[0]? |>.getD Json.null).getStr?
+        match tag with
+        | "set" => pure (COp.set (← (a[1]? |>.getD Json.null).getNat?))
+        | "spawn" => pure (COp.spawn (← (a[1]? |>.getD Json.null).getNat?))
+        | _ => pure COp.get
+    let P : Tid → List COp := fun t => progs.getD t []
+    let parentsJ ← (← j.getObjVal? "parent").getArr?
+    let parents : List (Option (Tid × Nat)) := parentsJ.toList.map fun p =>
+      match p.getArr? with
+      | .ok a => match (a[0]? |>.getD Json.null).getNat?, (a[1]? |>.getD Json.null).getNat? with
+        | .ok x, .ok y => some (x, y)
+        | _, _ => none
+      | .error _ => none
+    let parent : Tid → Option (Tid × Nat) := fun t => (parents.getD t none)
+    let inputsJ ← (← j.getObjVal? "inputOf").getArr?
+    let inputOf : Tid → Option Nat := fun t => match inputsJ.toList.getD t Json.null with
+      | Json.null => none
+      | x => x.getNat?.toOption
+    let n := progs.length
+    -- CWF, decided on the finite program
+    let wfRoot := parent 0 == none
+    let wfLt := (List.range n).all fun t => match parent t with | some (p, _) => p < t | none => true
+    let wfSpawn := (List.range n).all fun t => (List.range (P t).length).all fun i =>
+      match (P t)[i]? with
+      | some (COp.spawn c) => parent c == some (t, i)
+      | _ => true
+    -- WellScoped + the expected value of every get
+    let gets := (List.range n).flatMap fun t => (List.range (P t).length).filterMap fun i =>
+      match (P t)[i]? with
+      | some COp.get => some (t, i, expected P parent t i)
+      | _ => none
+    let wellSc := gets.all fun g => g.2.2 == inputOf g.1
+    pure (Json.mkObj [("wf", wfRoot && wfLt && wfSpawn), ("well_scoped", wellSc),
+      ("gets", Json.arr (gets.map fun g => Json.arr #[Json.num g.1, Json.num g.2.1, match g.2.2 with | some v => Json.num v | none => Json.null]).toArray)])
   | _ => throw s!"unknown op {op}"
 
 partial def loop (h : IO.FS.Stream) (out : IO.FS.Stream) : IO Unit := do
